@@ -215,6 +215,15 @@ class ScribbleExec(O.Exec):
         held = {}
         if "wl" in op:
             held["edge_whitelist"] = kw["edge_whitelist"] = c19.decode_whitelist(op["wl"])
+            if op.get("wl_as") == "proxy":
+                # a read-only VIEW of the dict the caller still owns
+                kw["edge_whitelist"] = types.MappingProxyType(held["edge_whitelist"])
+            elif op.get("wl_as") == "proxy2":
+                held["inner"] = dict(held["edge_whitelist"])
+                kw["edge_whitelist"] = types.MappingProxyType(
+                    {k: types.MappingProxyType(v) for k, v in held["inner"].items()}
+                )
+                held["edge_whitelist"] = held["inner"]
         law = UniverseLaws(**kw)
         self.w.add(op["new"], law)
         self._after(op, held)
@@ -347,6 +356,7 @@ class C12(c05.C05):
         "scribble-arg:matrix",
         "immutable-refused",
         "read-after-scribble",
+        "argument-passed-as-read-only-view",
     ]
 
     def make_config(self, rng):
@@ -458,6 +468,11 @@ class C12(c05.C05):
             ]
             spec.append([rng.choice(c19.WL_NAMES[:3]), inner])
         op["wl"] = spec
+        r = rng.random()
+        if r < 0.3:
+            op["wl_as"] = "proxy"
+        elif r < 0.4:
+            op["wl_as"] = "proxy2"
         op["scribble"] = {"arg": "edge_whitelist", "mut": self._mut(rng, st, DICT_MUTS)}
         return op
 
@@ -541,6 +556,8 @@ class C12(c05.C05):
                 s["probe:scribble:traversal-result"] += 1
         else:
             s["probe:scribble-arg:" + op["scribble"]["arg"].replace("row", "matrix")] += 1
+            if op.get("wl_as"):
+                s["probe:argument-passed-as-read-only-view"] += 1
         a, b = st.apply_both(op)
         if a is None and b is None:
             return None, None
